@@ -49,6 +49,7 @@ type tcpConnectionActorOptions struct {
 type tcpConnectionActor struct {
 	options        tcpConnectionActorOptions
 	conn           net.Conn
+	reader         *bufio.Reader // 整个连接生命周期内复用，缓冲区中已读入的后续帧不能丢弃
 	codec          vivid.Codec
 	envelopHandler NetworkEnvelopHandler
 	advertiseAddr  string
@@ -88,7 +89,10 @@ func (c *tcpConnectionActor) onLaunch(ctx vivid.ActorContext) {
 
 func (c *tcpConnectionActor) onReadConn(ctx vivid.ActorContext) (fatal bool, err error) {
 	// 消息读取
-	reader := bufio.NewReader(c.conn)
+	if c.reader == nil {
+		c.reader = bufio.NewReader(c.conn)
+	}
+	reader := c.reader
 	lengthBuf := make([]byte, 4)
 	if _, err = io.ReadFull(reader, lengthBuf); err != nil {
 		// 对等连接已关闭
